@@ -400,7 +400,9 @@ class Point(HyperbolicObject, projective.Point):
         products = utils.apply_bilinear(self_hyp, other_hyp,
                                         self.minkowski)
 
-        return np.arccosh(np.abs(products))
+        # for equal (or very close) points, rounding can put the pairing
+        # slightly inside (-1, 1), where arccosh is undefined: clamp
+        return np.arccosh(np.maximum(np.abs(products), 1))
 
     def origin_to(self, force_oriented=True):
         """Get an isometry taking an "origin" point to this point
